@@ -211,6 +211,38 @@ static void do_scan(YR_RULES* rules, const uint8_t* buf, size_t len, const char*
   yr_scanner_destroy(sc);
 }
 
+// scanseq: ONE scanner scans a sequence of buffers (seq=1,2,1,…: buf / buf2); every scan of a buffer must give what
+// a fresh scanner gives for that buffer, whatever happened in the scans before (e.g. a scan that hit the fiber limit)
+static void do_scanseq(YR_RULES* rules, const uint8_t* b1, size_t l1, const uint8_t* b2, size_t l2)
+{
+  char fresh[3][8192]; int frc[3] = {0, 0, 0};
+  for (int w = 1; w <= 2; w++)
+  {
+    SCANOBS o; memset(&o, 0, sizeof o); o.tmm_mode = 'c'; o.prefix = ""; o.mmd = 1 << 30;
+    YR_SCANNER* f = NULL;
+    if (yr_scanner_create(rules, &f) != ERROR_SUCCESS) { printf(" F%d=SCANNER", w); return; }
+    yr_scanner_set_callback(f, scan_cb, &o);
+    frc[w] = yr_scanner_scan_mem(f, w == 1 ? b1 : b2, w == 1 ? l1 : l2);
+    snprintf(fresh[w], sizeof fresh[w], "%s", o.out);
+    yr_scanner_destroy(f);
+    printf(" F%d=%s", w, errname(frc[w]));
+  }
+  SCANOBS o; memset(&o, 0, sizeof o); o.tmm_mode = 'c'; o.prefix = ""; o.mmd = 1 << 30;
+  YR_SCANNER* sc = NULL;
+  if (yr_scanner_create(rules, &sc) != ERROR_SUCCESS) { printf(" S=SCANNER"); return; }
+  yr_scanner_set_callback(sc, scan_cb, &o);
+  char* seq = strdup(get("seq", "1")); char* save = NULL; int i = 0;
+  for (char* t = strtok_r(seq, ",", &save); t; t = strtok_r(NULL, ",", &save))
+  {
+    int w = atoi(t) == 2 ? 2 : 1; i++;
+    o.off = 0; o.out[0] = 0; o.n_tmm = 0; o.n_slow = 0;
+    int rc = yr_scanner_scan_mem(sc, w == 1 ? b1 : b2, w == 1 ? l1 : l2);
+    printf(" S%d=%s S%d.same=%d", i, errname(rc), i, rc == frc[w] && !strcmp(o.out, fresh[w]));
+  }
+  free(seq);
+  yr_scanner_destroy(sc);
+}
+
 static void sanity(void)
 {
   // library usable afterwards: default configuration, fresh compiler, fresh scan
@@ -396,6 +428,24 @@ int main()
       yr_get_configuration_uint32(YR_CONFIG_MAX_MATCH_DATA, &c);
       printf(" cfg_stack=%u cfg_mspr=%u cfg_mmd=%u", a, b, c);
     }
+    else if (!strcmp(cmd, "settimeout"))
+    {
+      // reads back the nanosecond deadline stored by yr_scanner_set_timeout (no need to wait real seconds)
+      YR_COMPILER* c = NULL; YR_RULES* r = NULL; YR_SCANNER* sc = NULL;
+      yr_compiler_create(&c);
+      yr_compiler_add_string(c, "rule t { condition: true }", NULL);
+      yr_compiler_get_rules(c, &r);
+      yr_scanner_create(r, &sc);
+      char* vals = strdup(get("s", "0")); char* save = NULL;
+      for (char* t = strtok_r(vals, ",", &save); t; t = strtok_r(NULL, ",", &save))
+      {
+        int v = (int) strtol(t, 0, 10);
+        yr_scanner_set_timeout(sc, v);
+        printf(" %d:%llu", v, (unsigned long long) sc->timeout);
+      }
+      free(vals);
+      yr_scanner_destroy(sc); yr_rules_destroy(r); yr_compiler_destroy(c);
+    }
     else if (!strcmp(cmd, "ml")) cmd_ml();
     else if (!strcmp(cmd, "fib")) cmd_fib();
     else if (!strcmp(cmd, "re")) cmd_re();
@@ -405,6 +455,14 @@ int main()
       YR_RULES* r = do_compile("text", 1);
       if (r) yr_rules_destroy(r);
       reset_cfg();
+      sanity();
+    }
+    else if (!strcmp(cmd, "scanseq"))
+    {
+      size_t l1, l2; uint8_t* b1 = make_buf(get("buf", "-"), &l1); uint8_t* b2 = make_buf(get("buf2", "-"), &l2);
+      YR_RULES* r = do_compile("text", 1);
+      if (r) { do_scanseq(r, b1, l1, b2, l2); yr_rules_destroy(r); }
+      free(b1); free(b2);
       sanity();
     }
     else if (!strcmp(cmd, "scan"))
